@@ -890,10 +890,36 @@ func ConstInt(v ssa.Value) (int64, bool) {
 // ConstBool returns the boolean value of a constant operand.
 func ConstBool(v ssa.Value) (bool, bool) {
 	c, ok := v.(*ssa.Const)
-	if !ok || c.Value == nil || c.Value.Kind() != constant.Bool {
+	if ok {
+		if c.Value == nil || c.Value.Kind() != constant.Bool {
+			return false, false
+		}
+		return constant.BoolVal(c.Value), true
+	}
+	if v == nil {
 		return false, false
 	}
-	return constant.BoolVal(c.Value), true
+	if bt, isB := v.Type().Underlying().(*types.Basic); !isB || bt.Info()&types.IsBoolean == 0 {
+		return false, false
+	}
+	// the same constant on every way the value can come about (a parameter of a helper all of whose callers pass it)
+	os := Origins(v)
+	if len(os) == 0 {
+		return false, false
+	}
+	val := false
+	for i, o := range os {
+		oc, isC := o.(*ssa.Const)
+		if !isC || oc.Value == nil || oc.Value.Kind() != constant.Bool {
+			return false, false
+		}
+		b := constant.BoolVal(oc.Value)
+		if i > 0 && b != val {
+			return false, false
+		}
+		val = b
+	}
+	return val, true
 }
 
 // ConstString returns the string value of a constant operand.
@@ -939,6 +965,17 @@ func FieldOf(v ssa.Value) string {
 		case *ssa.MakeInterface:
 			v = x.X
 			continue
+		case *ssa.Parameter:
+			// a parameter of an inlined helper is the field all of its call sites pass
+			key := ""
+			for _, a := range inlinedArgs(x) {
+				k := FieldOf(a)
+				if k == "" || (key != "" && k != key) {
+					return ""
+				}
+				key = k
+			}
+			return key
 		default:
 			return ""
 		}
@@ -1148,6 +1185,9 @@ func MayBeZeroValue(v ssa.Value) bool {
 // calls, phis), the values stored into field number idx of that variable - directly or through the parameters
 // of the helpers it is handed to - are returned. Fields of objects that are not local (receivers, parameters of
 // anchored functions, globals) yield nothing: their loads stay origins.
+// LocalFieldStores is localFieldStores for rules.
+func LocalFieldStores(base ssa.Value, idx int) []ssa.Value { return localFieldStores(base, idx, 0) }
+
 func localFieldStores(base ssa.Value, idx int, depth int) []ssa.Value {
 	if depth > 3 {
 		return nil
